@@ -10,7 +10,7 @@ from .common import R, seg
 from .c15 import direct_stores
 from .loops import classify_while, scan_shape
 
-NEED = ("generic",)
+NEED = ("generic", "exact")
 IKV = "heavy.ImmutableKnotVector"
 KV = "knotspace.KnotVector"
 KV_COMPOSITE = {
@@ -164,7 +164,7 @@ def run(m, chk):
         "no IndexError from the constructor's index scans (X-INDEX), span/mult/split dominated by the valid ⇒ ValueError guard. "
         "Completeness of the validator (that it accepts exactly the clamped vectors) and the values of span/mult are not decided."
     )
-    chk.decides = ["UNORDERED (the sortedness test of the validator rejects a pair that is not ordered at all)", "FUNNEL", "COMMIT-LAST (KnotVector)", "V1", "X-INDEX", "GATE(valid ⇒ ValueError) for span/mult/split", 'MULT-KEEP (distinct knots never become knot-vector elements without their multiplicity)']
+    chk.decides = ["LOSSY-COMPARE (exact knots and nodes are not compared through their float image)", "UNORDERED (the sortedness test of the validator rejects a pair that is not ordered at all)", "FUNNEL", "COMMIT-LAST (KnotVector)", "V1", "X-INDEX", "GATE(valid ⇒ ValueError) for span/mult/split", 'MULT-KEEP (distinct knots never become knot-vector elements without their multiplicity)']
     chk.not_decided = ["completeness of __is_valid (tails / unclamped vectors are accepted — seen by reading, out of static reach)", "agreement of span/mult/knots/limits values with the element list"]
 
     # 1. funnel ------------------------------------------------------------------------------
@@ -285,3 +285,6 @@ def run(m, chk):
         chk.ob("GATE-VALID", f"{q}: everything after `if not self.valid(nodes): raise ValueError`", ok, loc=r.loc(c, bad[0].ast) if bad else r.loc(c, c.fi.node),
                detail="" if ok else f"{q}: `{seg(bad[0].ast, 60)}` is reachable without the `valid(nodes)` ⇒ ValueError guard: a node outside the interval yields a value / another exception", func=q, construct="unguarded query")
     unordered_rejected(r, chk, "heavy.ImmutableKnotVector.__is_valid")
+    from .extra import lossy_compare
+
+    lossy_compare(r, chk, m.exact())
